@@ -34,7 +34,7 @@ ID = "C12"
 LEAN_TARGETS = ["RV.C12.Props", "RV.C12.Audit"]
 AUDIT = "RV/C12/Audit.lean"
 DRIVER = "drv_c12"
-CASES = {"quick": 700, "thorough": 24000, "search": 6000}
+CASES = {"quick": 3500, "thorough": 80000, "search": 20000}
 RULE = ("sequences of 2-4 documents in mixed syntaxes (nt, nquads, turtle, n3, trig, rdf/xml, trix, json-ld, hext) written "
         "by the harness' own writers and parsed into one Graph / Dataset / ConjunctiveGraph that already has content "
         "(default graph or a named graph, IRI- or blank-node-named); non-trivial = some blank-node label string is used "
@@ -209,8 +209,9 @@ def gen_case(rng, tier, i):
     init_bn = sorted({t for q in init for t in q if t.startswith("b")})
     docs, earlier = [], []
     for idx in range(rng.randint(2, 4)):
-        if docs and rng.random() < 0.3:      # the same document again (same text, or another syntax)
-            si = rng.randrange(len(docs))
+        plain = [j for j, d0 in enumerate(docs) if not any(t.startswith("r") for q in d0["quads"] for t in q)]
+        if plain and rng.random() < 0.3:      # the same document again (same text, or another syntax)
+            si = rng.choice(plain)           # (not one that reads generated ids off the target: it would read other ids)
             src = docs[si]
             # its marker triples now occur twice: later documents must not read ids off them (ambiguous)
             earlier = [e for e in earlier if not any(q in src["quads"] for q in docs[e[0]]["quads"] if q[1] == "i%d" % MARK_P)]
@@ -253,7 +254,7 @@ def _quads_of(t):
     else:
         for s, p, o in t:
             out.append((s, p, o, DEFAULT))
-    return {tuple(_norm(x) for x in q) for q in out}, len(out)
+    return {tuple(_norm(x) for x in q) for q in out}, len(out) - len(set(out))
 
 
 def _norm(x):
@@ -442,6 +443,7 @@ def run_impl(case):
     stats = {"docs": len(case["docs"]), "sink_" + kind: 1}
     pi = _predict_target(case)
     if pi is not None:
+        stats["n3_id_guess_attempted"] = 1
         # adversary: content whose blank-node ids are the ids the N3 parser is about to generate, if they can be guessed
         for j, bid in enumerate(_predicted_ids(case, pi)):
             q = (BNode(bid), URIRef(iri_str(PRED_I[2])), URIRef(iri_str(1)), DEFAULT)
@@ -486,12 +488,12 @@ def run_impl(case):
         except Exception as e:  # a valid document must parse
             err = type(e).__name__
             viol.append(f"parse-error: document {idx} ({fmt}) rejected: {type(e).__name__}: {str(e)[:120]} :: {text[:200]!r}")
-        after, raw_n = _quads_of(target)
+        after, dups = _quads_of(target)
         # ---- oracle 1: nothing removed or altered
         lost = before - after
         if lost:
             viol.append(f"removed: parsing document {idx} ({fmt}) removed {len(lost)} quad(s), e.g. {sorted(map(str, next(iter(lost))))}")
-        if raw_n != len(after):
+        if dups:
             viol.append(f"dup: target yields duplicate quads after document {idx}")
         # ---- oracle 2: the target is the RDF merge
         fresh = {}
@@ -542,6 +544,7 @@ def run_impl(case):
     if shared:
         stats["label_shared"] = 1
     stats["quads"] = sum(len(d["quads"]) for d in case["docs"])
+    stats["same_doc_again"] = sum(1 for j, d in enumerate(case["docs"]) if any(d["quads"] == e["quads"] for e in case["docs"][:j]))
     return {"obs": obs, "viol": viol, "nontrivial": bool(shared),
             "key": repr((kind, case["init"], [(d["fmt"], d["quads"], d["into"]) for d in case["docs"]])),
             "stats": stats}
